@@ -6,5 +6,5 @@ T=${1:-quick}
 ls -d seeded/*/ | grep -v pending | while read d; do
   p=$(python3 -c "import json,sys;print(json.load(open('$d/meta.json'))['property'])")
   echo "$p $d"
-done | xargs -P 4 -L 1 bash -c 'tools/seedrun.sh $0 $1 '"$T"' 2>&1 | grep -E "CHECK exit|FAILURE"' | sort | tee /tmp/seedall.out
+done | xargs -P 3 -L 1 bash -c 'tools/seedrun.sh $0 $1 '"$T"' 2>&1 | grep -E "CHECK exit|FAILURE"' | sort | tee /tmp/seedall.out
 echo "caught: $(grep -c 'exit=1' /tmp/seedall.out) / $(wc -l < /tmp/seedall.out)"
